@@ -2569,10 +2569,12 @@ class Region(_IRNode):
         # Handle cases where results may be created after their first use when walking
         # in lexicographic order.
         if clone_operands:
-            for old, new in zip(self.walk(), dest.walk()):
-                new.operands = tuple(
-                    value_mapper.get(operand, operand) for operand in old.operands
-                )
+            # `dest` may already contain other blocks, only walk the cloned ones
+            for block, new_block in zip(self.blocks, new_blocks):
+                for old, new in zip(block.walk(), new_block.walk()):
+                    new.operands = tuple(
+                        value_mapper.get(operand, operand) for operand in old.operands
+                    )
 
     def walk(
         self, *, reverse: bool = False, region_first: bool = False
